@@ -180,6 +180,74 @@ theorem held_codebook {C : Code} (hC : C ∈ codes) (ms : List Bits) (hms : ∀ 
   exact ⟨C.gen ms[i], C.gen ms[j], hread i hi, hread j hj, (gen_systematic hC _ hmi).1,
     (gen_systematic hC _ hmi).2, check_gen hC _ hmi, fun hne => min_distance hC _ _ hmi hmj hne⟩
 
+/-! ## `correct_numpy_array`: the repair entry point that takes and returns an ndarray -/
+
+/-- every Hamming code word with one inverted bit comes back from `correct_numpy_array` as the original -/
+theorem correct_numpy_single {C : Code} (hC : C ∈ hammingCodes) (m : Bits) (hm : m.length = C.k)
+    (i : Nat) (hi : i < C.n) : C.correct (flipAt i (C.gen m)) = C.gen m := by
+  unfold Code.correct
+  rw [correct_single hC m hm i hi]; rfl
+
+/-- a Hamming(16,11,4) word with two inverted bits comes back as it was received (never mis-repaired) -/
+theorem correct_numpy_double_h16114 (m : Bits) (hm : m.length = 11) (i j : Nat) (hij : i < j) (hj : j < 16) :
+    h16114.correct (flipAt i (flipAt j (h16114.gen m))) = flipAt i (flipAt j (h16114.gen m)) := by
+  unfold Code.correct
+  rw [h16114_double m hm i j hij hj]; rfl
+
+/-! ## the argument as the memory of an ndarray: layout and provenance are not observable -/
+
+theorem gen_any_layout {C : Code} (L : NdLayout) (hsz : 0 < L.sz) (hst : L.sz ≤ L.stride) (pad : Nat)
+    (m : Bits) (hm : m.length = C.k) : C.genNd L (ndOfBits L pad m) C.k = some (C.gen m) :=
+  Code.genNd_nd C L pad m hsz hst hm
+
+theorem check_iff_any_layout {C : Code} (hC : C ∈ codes) (L : NdLayout) (hsz : 0 < L.sz)
+    (hst : L.sz ≤ L.stride) (pad : Nat) (w : Bits) (hw : w.length = C.n) :
+    C.checkNd L (ndOfBits L pad w) C.n = some true ↔ ∃ m, m.length = C.k ∧ C.gen m = w := by
+  rw [Code.checkNd_nd C L pad w hsz hst hw, Option.some.injEq]
+  exact check_iff hC w hw
+
+theorem correct_single_any_layout {C : Code} (hC : C ∈ hammingCodes) (L : NdLayout) (hsz : 0 < L.sz)
+    (hst : L.sz ≤ L.stride) (pad : Nat) (m : Bits) (hm : m.length = C.k) (i : Nat) (hi : i < C.n) :
+    C.correctNd L (ndOfBits L pad (flipAt i (C.gen m))) C.n = some (C.gen m) := by
+  have hl : (flipAt i (C.gen m)).length = C.n := by rw [flipAt_length, Code.gen_length]
+  rw [Code.correctNd_nd C L pad _ hsz hst hl, correct_numpy_single hC m hm i hi]
+
+theorem h16114_double_any_layout (L : NdLayout) (hsz : 0 < L.sz) (hst : L.sz ≤ L.stride) (pad : Nat)
+    (m : Bits) (hm : m.length = 11) (i j : Nat) (hij : i < j) (hj : j < 16) :
+    h16114.correctNd L (ndOfBits L pad (flipAt i (flipAt j (h16114.gen m)))) 16
+      = some (flipAt i (flipAt j (h16114.gen m))) := by
+  have hl : (flipAt i (flipAt j (h16114.gen m))).length = h16114.n := by
+    rw [flipAt_length, flipAt_length, Code.gen_length]
+  have := Code.correctNd_nd h16114 L pad _ hsz hst hl
+  rw [show h16114.n = 16 from rfl] at this
+  rw [this, correct_numpy_double_h16114 m hm i j hij hj]
+
+/-! ## histories with rejected calls -/
+
+/-- calls that are rejected (wrong length) leave no trace: the objects are those of the history
+without them -/
+theorem rejected_calls_leave_no_trace (h : Heap) (ops : List HOp) :
+    runHistoryE h ops = runHistory h (ops.filter HOp.accepted) := runHistoryE_eq h ops
+
+/-- after every history — rejected calls anywhere, the very first call included — the object handed
+out by `check_and_correct` for a Hamming code word with one inverted bit holds the original, and
+keeps holding it through every further history that does not overwrite it -/
+theorem repaired_after_any_history {C : Code} (hC : C ∈ hammingCodes) (before after : List HOp)
+    (m : Bits) (hm : m.length = C.k) (i : Nat) (hi : i < C.n)
+    (hafter : ∀ op ∈ after, op.target ≠ some (runHistoryE Heap.empty before).size) :
+    (runHistoryE (runHistoryE Heap.empty (before ++ [HOp.cac C (flipAt i (C.gen m))])) after).read
+        (runHistoryE Heap.empty before).size = some (C.gen m) := by
+  have hl : (flipAt i (C.gen m)).length = C.n := by rw [flipAt_length, Code.gen_length]
+  have hacc : (HOp.cac C (flipAt i (C.gen m))).accepted = true := by simp [HOp.accepted, hl]
+  have h1 : runHistoryE Heap.empty (before ++ [HOp.cac C (flipAt i (C.gen m))])
+      = (HOp.cac C (flipAt i (C.gen m))).run (runHistoryE Heap.empty before) := by
+    simp [runHistoryE, List.foldl_append, HOp.runE, hacc]
+  rw [h1, runHistoryE_eq _ after]
+  rw [read_runHistory _ _ _ (by simp [HOp.run, Heap.size_push])
+    (fun op hop => hafter op (List.mem_filter.mp hop).1)]
+  simp only [HOp.run, correct_single hC m hm i hi]
+  exact Heap.read_push_new _ _
+
 /-! ## non-vacuity -/
 
 example : h15113 ∈ hammingCodes := by simp [hammingCodes]
@@ -198,5 +266,19 @@ example : (runHistory Heap.empty
       [HOp.gen h743 [true,false,false,false], HOp.gen h743 [false,false,false,true],
        HOp.overwrite 1 (zeros 7)]).read 0 = some (h743.gen [true,false,false,false]) := by
   decide +kernel
+
+/-- a big-endian int16 column view: offset 3, stride 5, pad octets 0xaa -/
+example : ndOfBits ⟨2, true, 3, 5⟩ 0xaa [true, false] = [0xaa,0xaa,0xaa, 0,1, 0xaa,0xaa,0xaa, 0,0, 0xaa,0xaa,0xaa] := by
+  decide +kernel
+example : bitsOfNd ⟨2, true, 3, 5⟩ [0xaa,0xaa,0xaa, 0,1, 0xaa,0xaa,0xaa, 0,0, 0xaa,0xaa,0xaa] 2 = some [true, false] := by
+  decide +kernel
+/-- the same octets read with the other byte order are not 0 / 1: the call raises -/
+example : bitsOfNd ⟨2, false, 3, 5⟩ [0xaa,0xaa,0xaa, 0,1, 0xaa,0xaa,0xaa, 0,0, 0xaa,0xaa,0xaa] 2 = none := by
+  decide +kernel
+example : h743.correctNd ⟨1, false, 0, 1⟩ [0,0,0,0,0,0,1] 7 = some (zeros 7) := by decide +kernel
+/-- a history whose first call is rejected (six bits for the (7,4) code), then a repair -/
+example : (runHistoryE Heap.empty
+      [HOp.cac h743 [false,true,false,false,true,true], HOp.cac h743 [false,false,false,false,false,false,true]]).read 0
+    = some (zeros 7) := by decide +kernel
 
 end Dmr.C06
